@@ -239,6 +239,12 @@ Theorem C20_reject_khi_column_sum s n data b j :
 Proof. exact (reject_khi_column_sum s n data b j). Qed.
 Print Assumptions C20_reject_khi_column_sum.
 
+Theorem C20_reject_khi_zero_row_sums a b :
+  atol < Qabs (b - a) ->
+  sumQ [-a; a; b; -b] == 0 /\ khi_ok (KhiArr [2; 2]%nat [-a; a; b; -b]) = Reject ValueError.
+Proof. exact (reject_khi_zero_row_sums a b). Qed.
+Print Assumptions C20_reject_khi_zero_row_sums.
+
 (* tau = 0 is accepted for every valid kinetic matrix, un-batched or batched *)
 Theorem C20_accept_tau_zero khi d :
   khi_ok khi = Accept -> (d = DNone \/ d = DTrue) -> X_ok 0 khi d = Accept.
